@@ -148,6 +148,27 @@ def _legacy_pointer(ctx, rep):
         k += 1 if (ctx.thorough or ctx.intensify) else 2
 
 
+def _lease_lapses_taken_over_and_released(rng, env):
+    """actor 1 (holding the real lock) runs up to and including its validation read; its lease lapses; actor 2 takes the lock over and
+    RELEASES it again without moving the pointer; only then actor 1 resumes at its fencing check: the lock object is gone"""
+    import datetime as _dt
+
+    def choose(s, ready):
+        tr1 = [w for a, w in s.trace if a == 1]
+        validated = "lock.acquire" in tr1 and "read_file meta" in tr1[tr1.index("lock.acquire"):]
+        if not validated and 1 in ready:
+            return 1
+        if 2 in ready:
+            tr2 = [w for a, w in s.trace if a == 2]
+            if "lock.acquire" not in tr2 or tr2[-1] == "lock.acquire":
+                for k, o in env.fake.objects.items():
+                    if k.endswith(".locks/metadata.lock"):
+                        o.mtime = o.mtime - _dt.timedelta(seconds=120)
+            return 2
+        return sorted(ready)[0]
+    return choose
+
+
 def cases(ctx):
     rng = ctx.rng("cases")
     out = []
@@ -158,6 +179,10 @@ def cases(ctx):
     for kinds in (["append", "append"], ["delsnap", "append"], ["append", "expire"]):
         out.append({"backend": "s3cas", "topology": "separate", "clock": "real", "actors": 2, "kinds": kinds, "lock": "real",
                     "chooser": _lease_lapses_after_validation, "chooser_takes_env": True, "model_cfg": NOLOCK_CFG, "strict_fence": True})
+    # the lock is taken over and released again (nothing committed) while actor 1 sits between validation and its fence
+    for kinds in (["append", "locktouch"], ["delfiles", "locktouch"]):
+        out.append({"backend": "s3cas", "topology": "separate", "clock": "real", "actors": 2, "kinds": kinds, "lock": "real",
+                    "chooser": _lease_lapses_taken_over_and_released, "chooser_takes_env": True, "no_model": True})
     # the same takeover, and from then on the superseded committer cannot READ the lock object (503s): its fence must fail closed
     out.append({"backend": "s3cas", "topology": "separate", "clock": "real", "actors": 2, "kinds": ["append", "append"], "lock": "real",
                 "chooser": _lease_lapses_after_validation, "chooser_takes_env": True, "model_cfg": NOLOCK_CFG, "lock_get_fault_actor": 1, "no_model": True, "strict_fence": True})
